@@ -191,4 +191,21 @@ theorem C14_wiring2 :
     Sso.Generated.skel_cfg_cleanWhiteSpace =
       ["call:TrimSpace", "call:ReplaceAllString", "return"] := by decide
 
+/-- Tie (T1): the decoder tags of sso-proxy's configuration structs (`internal/proxy/configuration.go`) — the names under which the environment and the files reach each setting this
+property depends on (TTLs, cookie flags, client credentials, root domains, allow rules …). A tag that changes re-routes or drops a
+setting without any code noticing. -/
+theorem C14_tags_proxyConfigTags : Sso.Generated.proxyConfigTags =
+    ["Configuration.ServerConfig mapstructure:\"server\"", "Configuration.ProviderConfig mapstructure:\"provider\"", "Configuration.ClientConfig mapstructure:\"client\"", "Configuration.SessionConfig mapstructure:\"session\"", "Configuration.UpstreamConfigs mapstructure:\"upstream\"", "Configuration.MetricsConfig mapstructure:\"metrics\"", "Configuration.LoggingConfig mapstructure:\"logging\"", "Configuration.RequestSignerConfig mapstructure:\"requestsigner\"", "ProviderConfig.ProviderType mapstructure:\"type\"", "ProviderConfig.Scope mapstructure:\"scope\"", "ProviderConfig.ProviderURLConfig mapstructure:\"url\"", "ProviderURLConfig.External mapstructure:\"external\"", "ProviderURLConfig.Internal mapstructure:\"internal\"", "SessionConfig.CookieConfig mapstructure:\"cookie\"", "SessionConfig.TTLConfig mapstructure:\"ttl\"", "CookieConfig.Name mapstructure:\"name\"", "CookieConfig.Secret mapstructure:\"secret\"", "CookieConfig.Expire mapstructure:\"expire\"", "CookieConfig.Domain mapstructure:\"domain\"", "CookieConfig.Secure mapstructure:\"secure\"", "CookieConfig.HTTPOnly mapstructure:\"httponly\"", "TTLConfig.Lifetime mapstructure:\"lifetime\"", "TTLConfig.Valid mapstructure:\"valid\"", "TTLConfig.GracePeriod mapstructre:\"grace_period\"", "ClientConfig.ID mapstructure:\"id\"", "ClientConfig.Secret mapstructure:\"secret\"", "ServerConfig.Port mapstructure:\"port\"", "ServerConfig.TimeoutConfig mapstructure:\"timeout\"", "TimeoutConfig.Write mapstructure:\"write\"", "TimeoutConfig.Read mapstructure:\"read\"", "TimeoutConfig.Shutdown mapstructure:\"shutdown\"", "MetricsConfig.StatsdConfig mapstructure:\"statsd\"", "StatsdConfig.Port mapstructure:\"port\"", "StatsdConfig.Host mapstructure:\"host\"", "LoggingConfig.Enable mapstructure:\"enable\"", "UpstreamConfigs.DefaultConfig mapstructure:\"default\"", "UpstreamConfigs.ConfigsFile mapstructure:\"configfile\"", "UpstreamConfigs.testTemplateVars ", "UpstreamConfigs.upstreamConfigs ", "UpstreamConfigs.Cluster mapstructure:\"cluster\"", "UpstreamConfigs.Scheme mapstructure:\"scheme\"", "DefaultConfig.EmailConfig mapstructure:\"email\"", "DefaultConfig.AllowedGroups mapstructure:\"groups\"", "DefaultConfig.ProviderSlug mapstructure:\"provider\"", "DefaultConfig.Timeout mapstructure:\"timeout\"", "DefaultConfig.ResetDeadline mapstructure:\"resetdeadline\"", "EmailConfig.AllowedDomains mapstructure:\"domains\"", "EmailConfig.AllowedAddresses mapstructure:\"addresses\"", "RequestSignerConfig.Key mapstructure:\"key\""] := by decide
+
+/-- Tie (T1): the decoder tags of the upstream file's structs (`internal/proxy/proxy_config.go`) — the names under which the environment and the files reach each setting this
+property depends on (TTLs, cookie flags, client credentials, root domains, allow rules …). A tag that changes re-routes or drops a
+setting without any code noticing. -/
+theorem C14_tags_proxyUpstreamTags : Sso.Generated.proxyUpstreamTags =
+    ["ServiceConfig.Service yaml:\"service\"", "ServiceConfig.ClusterConfigs yaml:\",inline\"", "SimpleRoute.FromURL ", "SimpleRoute.ToURL ", "RewriteRoute.FromRegex ", "RewriteRoute.ToTemplate ", "UpstreamConfig.Service ", "UpstreamConfig.RouteConfig yaml:\",inline\"", "UpstreamConfig.ExtraRoutes yaml:\"extra_routes\"", "UpstreamConfig.Route ", "UpstreamConfig.SkipAuthCompiledRegex ", "UpstreamConfig.AllowedGroups ", "UpstreamConfig.AllowedEmailDomains ", "UpstreamConfig.AllowedEmailAddresses ", "UpstreamConfig.TLSSkipVerify ", "UpstreamConfig.SkipAuthPreflight ", "UpstreamConfig.PassAccessToken ", "UpstreamConfig.PreserveHost ", "UpstreamConfig.HMACAuth ", "UpstreamConfig.Timeout ", "UpstreamConfig.ResetDeadline ", "UpstreamConfig.FlushInterval ", "UpstreamConfig.HeaderOverrides ", "UpstreamConfig.InjectRequestHeaders ", "UpstreamConfig.SkipRequestSigning ", "UpstreamConfig.CookieName ", "UpstreamConfig.ProviderSlug ", "RouteConfig.From yaml:\"from\"", "RouteConfig.To yaml:\"to\"", "RouteConfig.Type yaml:\"type\"", "RouteConfig.Options yaml:\"options\"", "OptionsConfig.HeaderOverrides yaml:\"header_overrides\"", "OptionsConfig.InjectRequestHeaders yaml:\"inject_request_headers\"", "OptionsConfig.SkipAuthRegex yaml:\"skip_auth_regex\"", "OptionsConfig.AllowedGroups yaml:\"allowed_groups\"", "OptionsConfig.AllowedEmailDomains yaml:\"allowed_email_domains\"", "OptionsConfig.AllowedEmailAddresses yaml:\"allowed_email_addresses\"", "OptionsConfig.TLSSkipVerify yaml:\"tls_skip_verify\"", "OptionsConfig.SkipAuthPreflight yaml:\"skip_auth_preflight\"", "OptionsConfig.PassAccessToken yaml:\"pass_access_token\"", "OptionsConfig.PreserveHost yaml:\"preserve_host\"", "OptionsConfig.Timeout yaml:\"timeout\"", "OptionsConfig.ResetDeadline yaml:\"reset_deadline\"", "OptionsConfig.FlushInterval yaml:\"flush_interval\"", "OptionsConfig.SkipRequestSigning yaml:\"skip_request_signing\"", "OptionsConfig.ProviderSlug yaml:\"provider_slug\"", "OptionsConfig.CookieName ", "ErrParsingConfig.Message ", "ErrParsingConfig.Err "] := by decide
+
+/-- Tie (T1): `cmd/sso-proxy/main.go`: load the configuration from the environment, validate it, `proxy.New`, wrap in the logging handler, serve — the sequence the harness reproduces when it builds the service in-process (configuration validated before
+anything is served; the handler wrapping). -/
+theorem C14_skeleton_cmd_proxy_main : Sso.Generated.skel_cmd_proxy_main =
+    ["call:LoadConfig", "if{", "call:Exit", "}", "call:Validate", "if{", "call:Exit", "}", "call:NewStatsdClient", "if{", "call:Exit", "}", "go{", "call:New", "call:Run", "}", "call:SetUpstreamConfigs", "if{", "call:Exit", "}", "call:New", "if{", "call:Exit", "}", "call:NewLoggingHandler", "call:Sprintf", "call:Run", "if{", "}"] := by decide
+
 end Sso.Config
